@@ -134,7 +134,9 @@ def build_history(ex, variant):
         A.put_hunk(ex, st, 0, 0, [root(), A.mk_entry(ex, '/a', 'File', 2, addrs=[block('A', 1)], mode=0o644),
                                    A.mk_entry(ex, '/a2', 'File', 2, addrs=[A.mk_addr(ex, blk['A'], 0, sz['A'])], mode=0o644)])
         A.put_hunk(ex, st, 0, 1, [A.mk_entry(ex, '/b', 'File', 3, addrs=[block('B', 2)], mode=0o600)])
-        A.put_tail(ex, st, 0, 2)
+        # finished, or interrupted after its second hunk
+        if ex.branch(ex.fresh_bool('newest_closed'), 'band closed?'):
+            A.put_tail(ex, st, 0, 2)
     elif variant == 'multi':
         # a file stored in two blocks next to a single-block file
         m1 = A.put_block(ex, st, Data([(5, 0, sz['M'])]))
@@ -247,10 +249,10 @@ def make_contained(prog, op, variant='single'):
                 out['quick'] = quick
                 content_only = role == 'block' and how in ('garbage', 'altered')
                 must_report = harmful and (not quick or not content_only)
-                # deleting a hunk of a band that has no tail leaves exactly the state of an earlier interruption: legal, undetectable
+                # deleting or emptying the LAST hunk of a band that has no tail leaves exactly the state of an earlier interruption: legal, undetectable
                 bnum = int(path[1:5]) if path.startswith('b') else None
                 if role == 'hunk' and bnum is not None and (A.band_name(bnum) + '/BANDTAIL') not in st.nodes and \
-                        (how == 'delete' or (how == 'empty' and is_last_hunk(st, path))):
+                        how in ('delete', 'empty') and is_last_hunk(st, path):
                     must_report = False
                 if must_report and r.variant == 0 and not errs:
                     out['problems'].append('validate (%s) reports nothing although %s was %s and versions %s no longer restore as before'
@@ -266,9 +268,9 @@ def make_contained(prog, op, variant='single'):
                 out['result'] = 'Ok' if r.variant == 0 else 'Err:' + variant_name(ex, r.fields[0])
                 out['errors'] = errs[:4]
                 bnum = int(path[1:5]) if path.startswith('b') else None
-                # deleting a hunk, or emptying the last hunk, of a band without a tail is exactly what an interrupted backup leaves
+                # deleting or emptying the last hunk of a band without a tail is exactly what an interrupted backup leaves
                 legal_state = role == 'hunk' and bnum is not None and (A.band_name(bnum) + '/BANDTAIL') not in st.nodes and \
-                    (how == 'delete' or (how == 'empty' and is_last_hunk(st, path)))
+                    how in ('delete', 'empty') and is_last_hunk(st, path)
                 # a band whose head is gone is no longer a version; what other versions stitched through it is outside the claim
                 foreign_head = role == 'head' and bnum != b
                 if r.variant == 0 and isinstance(before[b], list) and not tail_removed and not legal_state and not foreign_head:
